@@ -7,7 +7,7 @@ import tinydb
 
 from .ldm_constants import OPERATOR_MAPPING
 from .database import DataBase
-from .ldm_classes import Filter, FilterStatement, RequestDataObjectsReq
+from .ldm_classes import Filter, FilterStatement, RequestDataObjectsReq, Utils
 
 
 class TinyDB(DataBase):
@@ -320,6 +320,10 @@ class TinyDB(DataBase):
             nested_fields = field_name.split(".")
             for document in to_check:
                 if self._field_exists(document, nested_fields):
+                    return True
+                # An undotted name is looked for at every level, as DictionaryDataBase.exists does
+                # (IF.LDM.3 asks for the message key, e.g. "cam", which sits under "dataObject").
+                if len(nested_fields) == 1 and Utils.check_field(document, field_name):
                     return True
             return False
 
